@@ -248,11 +248,15 @@ func (wa *withAttributes) RemoveAllAttributeAssignments() {
 	wa.attAssignments.clear()
 }
 
-// AttributeAssignments returns a slice of all attribute assignments of the entity.
+// AttributeAssignments returns a slice of all attribute assignments of the entity
+// sorted by attribute name (attributes with the same name are sorted by entity id).
 func (wa *withAttributes) AttributeAssignments() []*AttributeAssignment {
 	attSlice := wa.attAssignments.getValues()
 	slices.SortFunc(attSlice, func(a, b *AttributeAssignment) int {
-		return strings.Compare(a.attribute.Name(), b.attribute.Name())
+		if c := strings.Compare(a.attribute.Name(), b.attribute.Name()); c != 0 {
+			return c
+		}
+		return strings.Compare(a.attribute.EntityID().String(), b.attribute.EntityID().String())
 	})
 	return attSlice
 }
